@@ -6,7 +6,7 @@ NOTES = ("Every check: (1) regenerates the constants/tables translation from /re
 NOT_CLAIMED = {}
 CHECKS = {
     "C12": {
-        "text": "Machine-checked proof (Lean 4; every scalar type unless said otherwise) of the bookkeeping the property is about: the three row counters (pattern construction, residual fill, derivative scatter) agree - every scattered cell is a pattern cell of the same request at the same row offset, request i's residual components sit at rows rowOffset(i)..; permuting the request list permutes the residual and the (column, value) contributions as multisets, with explicit row maps for adjacent swaps, and never changes which error is raised; renumbering the variables by any injective map (guess list reordered to match) leaves every residual, warning, lint, validation result and the unsatisfied sweep unchanged and maps Jacobian columns through the renumbering (all 23 kinds); over the reals the damped step is invariant under row permutations and equivariant under column permutations, and the residual test, step norm and relative-step threshold depend only on multisets; the priority levels do not depend on the listing order.",
+        "text": "Machine-checked proof (Lean 4; every scalar type unless said otherwise) of the bookkeeping the property is about: the three row counters (pattern construction, residual fill, derivative scatter) agree - every scattered cell is a pattern cell of the same request at the same row offset, request i's residual components sit at rows rowOffset(i)..; permuting the request list permutes the residual and the (column, value) contributions as multisets, with explicit row maps for adjacent swaps, and never changes which error is raised; renumbering the variables by any injective map (guess list reordered to match) leaves every residual, warning, lint, validation result and the unsatisfied sweep unchanged and maps Jacobian columns through the renumbering (all 23 kinds); over the reals the damped step is invariant under row permutations and equivariant under column permutations, and the residual test, step norm and relative-step threshold depend only on multisets; the priority levels do not depend on the listing order; and lifted to the solve of one priority level: with exact solvers, reordering the requests yields the same values, iteration count, solved priority and under-constrained set and the same unsatisfied requests and warnings up to order, and renumbering the variables yields the reordered values and otherwise the identical outcome (solveInner_perm, solveInner_renumber).",
         "design_ref": "DESIGN.md §6 C12",
         "note": "The end-to-end equivariance of the f64 solve ('up to numerical noise') is the oracle's subject: all permutations for <= 4 requests, sampled otherwise, plus renumberings, on the real code. F16 is a known finding.",
         "technique": "Lean 4 proof (induction over the request list; case analysis over the 23 kinds for renaming; Mathlib matrix algebra for the step) + kernel/trace correspondence + permutation / renumbering oracle on the real code",
